@@ -101,6 +101,7 @@ def main(argv=None):
                 if k:
                     known_hit.setdefault(k["what"], 0)
                     known_hit[k["what"]] += 1
+                    ob["status"] = "known-finding"
                     continue
                 violations += 1
                 rp = write_replay(prop, ob["key"], {"property": prop, "tier": "deductive", "obligation": ob})
@@ -144,7 +145,7 @@ def main(argv=None):
     write_evidence(prop, a.tier, seed, ded, rt, violations, known_hit, time.time() - t0, undecided)
     for l in lines:
         print(l)
-    nob = len(ded["obligations"]) if ded else 0
+    nob = sum(1 for o in ded["obligations"] if o["status"] != "known-finding") if ded else 0
     ndis = sum(1 for o in ded["obligations"] if o["status"] == "discharged") if ded else 0
     print(f"{prop} tier={a.tier} seed={seed}: deductive {ndis}/{nob} obligations discharged"
           f"{' (' + str(undecided) + ' undecided)' if undecided else ''}; "
@@ -159,8 +160,10 @@ def write_evidence(prop, tier, seed, ded, rt, violations, known_hit, wall, undec
     cov = {}
     assumptions = []
     if ded is not None:
-        obs = ded["obligations"]
+        kf_obs = [o for o in ded["obligations"] if o["status"] == "known-finding"]
+        obs = [o for o in ded["obligations"] if o["status"] != "known-finding"]
         cov.update({
+            "known_finding_obligations": [{"id": o["id"], "replay": o.get("replay")} for o in kf_obs],
             "obligations": len(obs),
             "discharged": sum(1 for o in obs if o["status"] == "discharged"),
             "undecided": undecided,
